@@ -101,6 +101,10 @@ func (f FileSpec) driver(pkgName, caseDir string) string {
 					w("		return failure()")
 					w("	}")
 				}
+				w("	if bytes.Equal(%s, []byte(\"reuse\")) {", get(m.In, "in"))
+				w("		if err := stream.Send(%s); err != nil { return err }", mk(m.Out, `[]byte("first")`))
+				w("		return stream.Send(%s)", mk(m.Out, `nil`))
+				w("	}")
 				w("	for i := 0; i < 2; i++ {")
 				w("		if err := stream.Send(%s); err != nil { return err }", mk(m.Out, `append([]byte("`+tag+`"), `+get(m.In, "in")+`...)`))
 				w("	}")
@@ -159,7 +163,7 @@ func (f FileSpec) driver(pkgName, caseDir string) string {
 	w("	srv := drpcserver.New(mux)")
 	w("	go srv.ServeOne(ctx, c2)")
 	w("	conn := &recConn{Conn: drpcconn.New(c1)}")
-	w("	callCtx := func() context.Context { c, cancel := context.WithTimeout(ctx, 15*time.Second); _ = cancel; return c }")
+	w("	callCtx := func() context.Context { c, cancel := context.WithTimeout(ctx, 40*time.Second); _ = cancel; return c }")
 	w("	_ = callCtx")
 	w("	defer conn.Close()")
 	if ep != nil {
@@ -267,6 +271,19 @@ func (f FileSpec) driver(pkgName, caseDir string) string {
 				w("			}")
 				w("			if _, err := st.Recv(); !errors.Is(err, io.EOF) { t.Fatalf(\"%s.%s want EOF got %%v\", err) }", g, mg)
 				w("			_ = st.Close()")
+				w("		}")
+				// the generated RecvMsg receives into a message the caller supplies, and callers reuse it: each receive
+				// must leave exactly the message that was sent, also when a field set by the previous one is absent now
+				w("		{")
+				w("			st, err := cli.%s(callCtx(), %s)", mg, mk(m.In, `[]byte("reuse")`))
+				w("			if err != nil { t.Fatalf(\"%s.%s: %%v\", err) }", g, mg)
+				w("			out := new(%s)", goType(m.Out))
+				w("			rm, ok := st.(interface{ RecvMsg(*%s) error })", goType(m.Out))
+				w("			if !ok { t.Fatalf(\"%s.%s: the generated client stream has no RecvMsg\") }", g, mg)
+				w("			if err := rm.RecvMsg(out); err != nil || !bytes.Equal(%s, []byte(\"first\")) { t.Fatalf(\"%s.%s RecvMsg %%v %%q\", err, %s) }", get(m.Out, "out"), g, mg, get(m.Out, "out"))
+				w("			if err := rm.RecvMsg(out); err != nil || len(%s) != 0 { t.Fatalf(\"%s.%s: RecvMsg into a reused message: the server sent an empty value, the client has %%q (err %%v)\", %s, err) }", get(m.Out, "out"), g, mg, get(m.Out, "out"))
+				w("			_ = st.Close()")
+				w("			conn.rpcs = conn.rpcs[:1]")
 				w("		}")
 			case m.CS && !m.SS:
 				w("		{")
